@@ -169,8 +169,13 @@ static ares_status_t parse_sort(ares_buf_t *buf, struct apattern *pat)
     }
 
     if (ares_str_isnum(maskstr)) {
-      /* Numeric mask */
-      int mask = atoi(maskstr);
+      /* Numeric mask, at most 128: more than 3 digits cannot be one and must
+       * not reach atoi(), which is undefined on overflow */
+      int mask;
+      if (ares_strlen(maskstr) > 3) {
+        return ARES_EBADSTR;
+      }
+      mask = atoi(maskstr);
       if (mask < 0 || mask > 128) {
         return ARES_EBADSTR;
       }
